@@ -34,6 +34,8 @@ import (
 	"github.com/Nextdoor/pg-bifrost.git/transport"
 	"github.com/Nextdoor/pg-bifrost.git/transport/batch"
 	"github.com/Nextdoor/pg-bifrost.git/transport/batcher"
+	"github.com/Nextdoor/pg-bifrost.git/transport/manager"
+	"github.com/Nextdoor/pg-bifrost.git/transport/progress"
 	"github.com/Nextdoor/pg-bifrost.git/utils"
 	"github.com/Shopify/sarama"
 	tkafka "github.com/Nextdoor/pg-bifrost.git/transport/transporters/kafka"
@@ -511,6 +513,56 @@ func plumbingDDReport(w []string) (res string) {
 	return fmt.Sprintf("lines=%d %s", len(got), strings.Join(got, ","))
 }
 
+// plumbing startworkers <n>: the transport manager (stdout sink, n workers) starts its workers; one batch is put on EVERY
+// worker's queue. Observed: which queues were served (the batch's transactions came back on the progress channel).
+func plumbingStartWorkers(w []string) (res string) {
+	defer func() {
+		if r := recover(); r != nil {
+			res = fmt.Sprintf("panic %v", r)
+		}
+	}()
+	n, _ := strconv.Atoi(w[2])
+	sh := shutdown.NewShutdownHandler()
+	defer sh.CancelFunc()
+	in := make(chan *marshaller.MarshalledMessage)
+	seenCh := make(chan []*progress.Seen, 16)
+	written := make(chan *ordered_map.OrderedMap, 64)
+	statsChan := make(chan stats.Stat, 4096)
+	m := manager.New(sh, in, seenCh, written, statsChan, transport.STDOUT,
+		map[string]interface{}{config.VAR_NAME_WORKERS: n, config.VAR_NAME_PARTITION_METHOD: partitioner.PART_METHOD_NONE, config.VAR_NAME_BATCHER_ROUTING_METHOD: batcher.BATCH_ROUTING_ROUND_ROBIN},
+		500, 1000, 2, 1000, int64(104857600), batcher.BATCH_ROUTING_ROUND_ROBIN)
+	m.StartTransporterGroup()
+	chans := m.GetBatcher().GetOutputChans()
+	for k, ch := range chans {
+		b := batch.NewGenericBatch("", 1)
+		b.Add(&marshaller.MarshalledMessage{Operation: "INSERT", Table: "public.t", Json: []byte(fmt.Sprintf("{\"worker\":%d}", k)), TimeBasedKey: fmt.Sprintf("w%d", k), Transaction: strconv.Itoa(k), WalStart: uint64(k + 1)})
+		b.Close()
+		select {
+		case ch <- b:
+		case <-time.After(2 * time.Second):
+			return fmt.Sprintf("queue %d blocked", k)
+		}
+	}
+	served := []string{}
+	deadline := time.After(3 * time.Second)
+loop:
+	for len(served) < len(chans) {
+		select {
+		case om := <-written:
+			if om != nil {
+				it := om.IterFunc()
+				for kv, ok := it(); ok; kv, ok = it() {
+					served = append(served, strings.TrimPrefix(kv.Key.(string), "w"))
+				}
+			}
+		case <-deadline:
+			break loop
+		}
+	}
+	sortStrings(served)
+	return fmt.Sprintf("queues=%d served=%s", len(chans), strings.Join(served, ","))
+}
+
 type plumbReporter struct{ errs []string }
 
 func (r *plumbReporter) Error(a ...interface{})            { r.errs = append(r.errs, fmt.Sprint(a...)) }
@@ -624,6 +676,10 @@ func plumbingRun(c Case) ([]string, []string) {
 	outs := []string{}
 	for _, l := range c.Lines {
 		w := strings.Fields(l)
+		if len(w) == 3 && w[1] == "startworkers" {
+			outs = append(outs, plumbingStartWorkers(w))
+			continue
+		}
 		if len(w) == 3 && w[1] == "kafkaput" {
 			outs = append(outs, plumbingKafkaPut(w))
 			continue
@@ -670,6 +726,9 @@ func plumbingGen(r *Rng, tier string) Case {
 	ls := "-"
 	if len(list) > 0 {
 		ls = strings.Join(list, ",")
+	}
+	if r.Chance(8) {
+		return Case{[]string{fmt.Sprintf("plumbing startworkers %d", r.Range(1, 5))}}
 	}
 	if r.Chance(12) {
 		return Case{[]string{fmt.Sprintf("plumbing datestring %d", r.Range(-11, 12))}}
@@ -720,6 +779,13 @@ func plumbingMonitor(lines, outs []string, m *Model) []Violation {
 		}
 		if strings.HasPrefix(outs[i], "panic") {
 			vs = append(vs, Violation{"C17", "app.New panics on a configuration main.go accepts: " + l + " => " + outs[i], ""})
+			continue
+		}
+		if strings.HasPrefix(l, "plumbing startworkers") {
+			if want != outs[i] {
+				vs = append(vs, Violation{"C17", "the transport manager does not start one worker per queue: wanted " + want + ", observed " + outs[i] + " (" + l + "): batches routed to an unserved queue are never written, and a fault there never stops the process", ""})
+				vs = append(vs, Violation{"C05", "a batch put on a worker's queue is not served by that worker: wanted " + want + ", observed " + outs[i] + " (" + l + ")", ""})
+			}
 			continue
 		}
 		if strings.HasPrefix(l, "plumbing kafkaput") {
